@@ -507,6 +507,183 @@ def _check(case):
     return {'nt': nt, 'cls': classes}
 
 
+
+# ---------------------------------------------------------------------------------------------
+# grow-only histories: reads (which materialise caches), growth, and derivations taken from the grown
+# index *without* observing it first; the source is only observed at explicit 'observe' steps
+
+GO_READS = ('values', 'positions', 'len', 'reversed', 'iter', 'contains', 'loc', 'repr', 'dtype', 'depth_values', 'none')
+GO_ROUTES = ('static_ctor', 'go_ctor', 'rename', 'copy', 'deepcopy', 'pickle', 'iloc_all', 'series_index', 'frame_columns',
+             'level_add', 'flat', 'iloc_tail', 'union_self')
+
+
+@st.composite
+def go_cases(draw):
+    kind = draw(st.sampled_from(['int', 'str', 'date', 'mixed', 'ih', 'ih', 'ih']))
+    if kind == 'ih':
+        n = draw(st.integers(1, 6))
+        labels = draw(gen.tree_labels_n(n))
+    else:
+        n = draw(st.integers(0, 5))
+        labels = draw(gen.flat_labels(n, kind))
+    steps = draw(st.lists(st.one_of(
+        st.fixed_dictionaries({'s': st.just('read'), 'what': st.sampled_from(GO_READS)}),
+        st.fixed_dictionaries({'s': st.sampled_from(['append', 'append', 'extend']), 'v': st.integers(0, 40), 'branch': st.integers(0, 2)}),
+        st.fixed_dictionaries({'s': st.just('derive'), 'route': st.sampled_from(GO_ROUTES)}),
+        st.fixed_dictionaries({'s': st.just('observe')}),
+    ), min_size=2, max_size=9))
+    return {'kind': kind, 'labels': labels, 'steps': steps}
+
+
+def _go_fresh(kind, model, v, branch):
+    """A label not in ``model`` that keeps hierarchical labels in tree order when appended."""
+    if kind == 'ih':
+        depth = len(model[0])
+        last = model[-1]
+
+        def leaf(proto, k):
+            return ('zq%d' % k) if isinstance(proto, str) else (np.datetime64(19800 + k, 'D') if isinstance(proto, np.datetime64) else 7000 + k)
+        # branch 0: new leaf under the last parent; 1: new node one level up; 2: new outermost label
+        level = max(0, depth - 1 - branch)
+        c = last[:level] + tuple(leaf(last[d], v + d) for d in range(level, depth))
+        if any(eq(c[:level + 1], x[:level + 1]) for x in model):
+            return None
+        return c
+    if kind == 'date':
+        c = np.datetime64(19800 + v, 'D')
+    elif kind == 'str':
+        c = 'zq%d' % v
+    elif kind == 'int':
+        c = 7000 + v
+    else:
+        c = [7000 + v, 'zq%d' % v, (97, v), 2.25 + v][v % 4]
+    return None if any(eq(canon(c), canon(x)) for x in model) else c
+
+
+def check_go(case):
+    del DEFERRED[:]
+    kind = case['kind']
+    model = list(case['labels'])
+    ix = lib(gen.build_index, {'kind': kind, 'labels': list(model)}, True)
+    if isinstance(ix, Raised):
+        raise Failure('raised:%s' % ix.cls, 'construction raised %r' % ix.exc, ix.where)
+    derived = []
+    classes = ['gokind:' + kind]
+    grown = read_before_growth = stale_derive = False
+    pending_growth = False  # the source has grown and has not been observed since
+    for stp in case['steps']:
+        s = stp['s']
+        n = len(model)
+        if s == 'read':
+            w = stp['what']
+            call = {'values': lambda: ix.values, 'positions': lambda: ix.positions, 'len': lambda: len(ix), 'reversed': lambda: list(reversed(ix)),
+                    'iter': lambda: list(ix), 'contains': lambda: (model[0] in ix) if model else None,
+                    'loc': lambda: ix.loc_to_iloc(list(ix)[-1] if ix.depth == 1 else tuple(list(ix)[-1])) if model else None,
+                    'repr': lambda: repr(ix), 'dtype': lambda: ix.dtypes if ix.depth > 1 else ix.dtype,
+                    'depth_values': lambda: ix.values_at_depth(0), 'none': lambda: None}[w]
+            r = lib(call)
+            if isinstance(r, Raised):
+                raise Failure('raised:%s' % r.cls, 'read %s raised %r' % (w, r.exc), r.where)
+            if w != 'none' and not grown:
+                read_before_growth = True
+            classes.append('read:' + w)
+        elif s in ('append', 'extend'):
+            if kind == 'ih' and not model:
+                continue
+            a = _go_fresh(kind, model, stp['v'], stp['branch'])
+            if a is None:
+                continue
+            if s == 'append':
+                r = lib(ix.append, a)
+                new = [a]
+            else:
+                b = _go_fresh(kind, model + [a], stp['v'] + 17, 0 if kind != 'ih' else 0)
+                if b is None:
+                    continue
+                if kind == 'ih':
+                    # extend takes another hierarchy whose outermost labels are new
+                    a = _go_fresh(kind, model, stp['v'], len(model[0]) - 1)
+                    if a is None:
+                        continue
+                    b = _go_fresh(kind, model + [a], stp['v'] + 17, 0)
+                    if b is None:
+                        continue
+                    try:
+                        ctors = [t._IMMUTABLE_CONSTRUCTOR if not t.STATIC else t for t in ix.index_types.values]
+                        other = sf.IndexHierarchy.from_labels([a, b], index_constructors=ctors)
+                    except Exception:  # noqa: BLE001
+                        continue
+                    r = lib(ix.extend, other)
+                else:
+                    r = lib(ix.extend, [a, b])
+                new = [a, b]
+            if isinstance(r, Raised):
+                raise Failure('raised:%s' % r.cls, '%s(%s) raised %r' % (s, short(new), r.exc), r.where)
+            model = model + new
+            grown = pending_growth = True
+            classes.append('go:' + s)
+        elif s == 'derive':
+            route = stp['route']
+            depth = ix.depth
+            want = list(model)
+            if route == 'static_ctor':
+                r = lib(lambda: ix._IMMUTABLE_CONSTRUCTOR(ix))
+            elif route == 'go_ctor':
+                r = lib(lambda: type(ix)(ix))
+            elif route == 'rename':
+                r = lib(lambda: ix.rename('nm'))
+            elif route == 'copy':
+                r = lib(ix.copy)
+            elif route == 'deepcopy':
+                r = lib(copy.deepcopy, ix)
+            elif route == 'pickle':
+                r = lib(lambda: pickle.loads(pickle.dumps(ix)))
+            elif route == 'iloc_all':
+                r = lib(lambda: ix.iloc[:])
+            elif route == 'iloc_tail':
+                if n < 1:
+                    continue
+                r = lib(lambda: ix.iloc[n - 1:])
+                want = model[n - 1:]
+            elif route == 'series_index':
+                r = lib(lambda: sf.Series(np.arange(n), index=ix).index)
+            elif route == 'frame_columns':
+                r = lib(lambda: sf.FrameGO(np.zeros((1, n)), columns=ix).to_frame().columns)
+            elif route == 'level_add':
+                if n == 0 or (depth == 1 and any(isinstance(m, tuple) for m in model)):
+                    continue
+                r = lib(lambda: ix.level_add('L'))
+                want = [(('L',) + tuple(m)) if depth > 1 else ('L', m) for m in model]
+            elif route == 'flat':
+                if depth == 1:
+                    continue
+                r = lib(ix.flat)
+                want = [tuple(m) for m in model]
+            else:
+                r = lib(lambda: ix.union(ix))
+            if isinstance(r, Raised):
+                raise Failure('raised:%s' % r.cls, 'derivation %s of a grown index raised %r' % (route, r.exc), r.where)
+            check_index(r, want, 'derived by %s%s' % (route, ' (source grown, unobserved)' if pending_growth else ''))
+            derived.append((r, want, route))
+            if pending_growth and read_before_growth:
+                stale_derive = True
+            classes.append('derive:' + route)
+        else:
+            check_index(ix, model, 'source at observe step')
+            pending_growth = False
+    check_index(ix, model, 'source at end')
+    for r, want, route in derived:
+        if r is ix:
+            continue
+        if not r.STATIC and route in ('iloc_all',):
+            pass
+        check_index(r, want, 'derived by %s, re-read at end' % route)
+    if DEFERRED:
+        raise Failure('no-raise', DEFERRED[0])
+    if stale_derive:
+        classes.append('derive-after-unobserved-growth')
+    return {'nt': stale_derive or (grown and bool(derived)), 'cls': classes}
+
 # ---------------------------------------------------------------------------------------------
 # negative space
 
@@ -587,6 +764,8 @@ def tag(case, f):
 SUBS = [
     Sub('bijection', cases(), check, quick=2000, thorough=64000, tag=tag,
         rule='construct + derive; invariants vs list model after every step'),
+    Sub('go_history', go_cases(), check_go, quick=1500, thorough=48000, tag=tag,
+        rule='grow-only index histories: cache-materialising reads, append/extend, 13 derivation routes taken from the grown index before it is observed'),
     Sub('negative', neg_cases(), check_neg, quick=800, thorough=16000,
         rule='duplicate / non-tree label sets must raise ErrorInitIndex'),
 ]
